@@ -269,6 +269,16 @@ func (p *printer) simpleCmd(x *ast.SimpleCmd, redirs []*ast.Redir) (err error) {
 	return
 }
 
+// esac reports whether w is spelled like the reserved word esac.
+func esac(w ast.Word) bool {
+	if len(w) == 1 {
+		if w, ok := w[0].(*ast.Lit); ok {
+			return w.Value == "esac"
+		}
+	}
+	return false
+}
+
 // reserved reports whether w is spelled like a reserved word.
 func reserved(w ast.Word) bool {
 	if len(w) != 1 {
@@ -404,6 +414,9 @@ func (p *printer) caseClause(x *ast.CaseClause) {
 			for i, w := range c.Patterns {
 				if i > 0 {
 					p.w.WriteByte('|')
+				} else if esac(w) {
+					// would end the case conditional construct
+					p.w.WriteByte('(')
 				}
 				p.word(w)
 			}
@@ -426,6 +439,9 @@ func (p *printer) caseClause(x *ast.CaseClause) {
 			for i, w := range c.Patterns {
 				if i > 0 {
 					p.w.WriteByte('|')
+				} else if esac(w) {
+					// would end the case conditional construct
+					p.w.WriteByte('(')
 				}
 				p.word(w)
 			}
